@@ -7,8 +7,8 @@
    Each theorem is followed by an instance on the concrete definition ex_spec (fan-out, fan-in on a
    join, two parallel transitions a -> j, the cycle a -> j -> c -> a, commands noop and retry, a
    declared retry, two declared tasks not reachable from the start task), whose composition is
-   computed by vm_compute in ex_compose. *)
-From Coq Require Import String List Bool ZArith.
+   computed by vm_compute in ex_compose (and agrees with the real composer on the same definition). *)
+From Coq Require Import String List Bool ZArith Permutation.
 From Orq Require Import Base State Composer C14Proofs.
 Import ListNotations.
 Open Scope string_scope.
@@ -123,6 +123,34 @@ Proof.
   exact (C14_attributes_exact _ _ _ _ ex_compose).
 Qed.
 
+(* [F] (e) the retry policy of C14_attributes_exact read off the transitions in declaration order
+   (the name sort of get_next_tasks is stable): the last retry command -- highest transition index,
+   last position in its do list -- overrides the declared retry spec.
+     retry_upd acc (d, cond, i) := if d = "retry" then retry_cmd cond else acc *)
+Theorem C14_retry_policy : forall sp rt t,
+  exp_retry sp rt t =
+  fold_left retry_upd (spec_next_tasks sp t) (match aget String.eqb t rt with Some r => r | None => JNull end).
+Proof. exact exp_retry_unsorted. Qed.
+Print Assumptions C14_retry_policy.
+Example ex_C14_retry_policy :
+  filter (fun x => String.eqb (nt_name x) "retry") (spec_next_tasks ex_spec "c")
+  = [("retry", JStr "<% failed() %>", 0); ("retry", JStr "<% ctx().x %>", 2)]
+  /\ exp_retry ex_spec ex_rt "c" = retry_cmd (JStr "<% ctx().x %>").
+Proof. split; vm_compute; reflexivity. Qed.
+
+(* [F] the composed graph does not depend on the order in which the tasks are declared (task names
+   unique, as in a Python dict) *)
+Theorem C14_declaration_order : forall sp1 sp2 rt fuel,
+  Permutation (wf_tasks sp1) (wf_tasks sp2) -> NoDup (map fst (wf_tasks sp1)) ->
+  compose sp1 rt fuel = compose sp2 rt fuel.
+Proof. exact declaration_order. Qed.
+Print Assumptions C14_declaration_order.
+Example ex_C14_declaration_order :
+  map fst (wf_tasks ex_spec) = ["j"; "c"; "s"; "b"; "u"; "v"; "a"]
+  /\ map fst (wf_tasks ex_spec_sorted) = ["a"; "b"; "c"; "j"; "s"; "u"; "v"]
+  /\ compose ex_spec_sorted ex_rt 20 = Val ex_graph.
+Proof. repeat split; vm_compute; reflexivity. Qed.
+
 (* [F] persistence (typed serialize / deserialize of any graph): the restored graph has the same node
    list and exactly the same edges -- same source, destination, key, ref and criteria -- provided
    the edge sources are nodes, which C14_edges_sound gives for composed graphs *)
@@ -134,3 +162,45 @@ Proof. exact persist_edges. Qed.
 Print Assumptions C14_persist_edges.
 Example ex_C14_persist : g_deserialize (g_serialize ex_graph) = ex_graph.
 Proof. vm_compute. reflexivity. Qed.
+
+(* [F] persistence: serialising the restored graph gives the same data again -- node list and, per node,
+   the same (destination, key, ref, criteria) entries in the same order -- for every graph with unique
+   node ids, in particular (C14_nodes_exact) for every composed graph *)
+Theorem C14_serialize_roundtrip : forall g, NoDup (map n_id (g_nodes g)) ->
+  g_serialize (g_deserialize (g_serialize g)) = g_serialize g.
+Proof. exact serialize_roundtrip. Qed.
+Print Assumptions C14_serialize_roundtrip.
+Theorem C14_serialize_roundtrip_composed : forall sp rt fuel g, compose sp rt fuel = Val g ->
+  g_serialize (g_deserialize (g_serialize g)) = g_serialize g.
+Proof. intros sp rt fuel g H. apply serialize_roundtrip. exact (proj1 (nodes_exact sp rt fuel g H)). Qed.
+Print Assumptions C14_serialize_roundtrip_composed.
+Example ex_C14_serialize_roundtrip :
+  map (map a_key) (sg_adj (g_serialize ex_graph)) = [[0; 0]; [0; 1]; [0]; [0]; [0; 0; 1]; []]
+  /\ g_serialize (g_deserialize (g_serialize ex_graph)) = g_serialize ex_graph.
+Proof. split; [vm_compute; reflexivity|exact (C14_serialize_roundtrip_composed _ _ _ _ ex_compose)]. Qed.
+
+(* [F] fuel.  The breadth-first search of tasks.in_cycle never runs out of its fuel (spec_size + 1
+   dequeues; task names unique); when moreover every transition target is an engine command or a
+   declared task (what inspect() enforces), the only way compose fails is the worklist's own fuel --
+   in particular no KeyError; and the graph does not depend on the fuel once it suffices.
+   Termination of the worklist itself (exists fuel, compose sp rt fuel = Val g) is NOT proved. *)
+Theorem C14_in_cycle_total : forall sp t, NoDup (map fst (wf_tasks sp)) -> spec_in_cycle sp t <> None.
+Proof. exact spec_in_cycle_total. Qed.
+Print Assumptions C14_in_cycle_total.
+Theorem C14_only_fuel_error : forall sp, NoDup (map fst (wf_tasks sp)) -> targets_defined sp ->
+  forall rt fuel e, compose sp rt fuel = Exc e -> e = x_out_of_fuel.
+Proof. exact compose_only_fuel_error. Qed.
+Print Assumptions C14_only_fuel_error.
+Theorem C14_fuel_irrelevant : forall sp rt f1 f2 g1 g2,
+  compose sp rt f1 = Val g1 -> compose sp rt f2 = Val g2 -> g1 = g2.
+Proof. exact compose_fuel_irrelevant. Qed.
+Print Assumptions C14_fuel_irrelevant.
+Example ex_C14_fuel :
+  compose ex_spec ex_rt 6 = Exc x_out_of_fuel /\ compose ex_spec ex_rt 7 = Val ex_graph
+  /\ map (spec_in_cycle ex_spec) ["s"; "a"; "j"; "c"; "u"; "noop"]
+     = [Some false; Some true; Some true; Some true; Some true; Some false]
+  /\ targets_defined ex_spec /\ NoDup (map fst (wf_tasks ex_spec)).
+Proof.
+  split; [vm_compute; reflexivity|]. split; [vm_compute; reflexivity|]. split; [vm_compute; reflexivity|].
+  split; [exact ex_targets_defined|exact ex_nodup].
+Qed.
